@@ -4,6 +4,7 @@ model (and, replayed by the harness, of the implementation).  Each is listed in 
 -/
 import WpModel.Model.StyleDoc
 import WpModel.Model.StyleMemo
+import WpModel.Model.CssSpec
 
 namespace Wp.Witness.C06
 open Wp Wp.Cascade Wp.Computed Wp.Style Wp.StyleMemo
@@ -63,6 +64,17 @@ theorem inherit_skips_blockification_absolute :
     let plain : Elem := ⟨[("display", .val (.strs ["inline", "flow"])), ("position", .val (.kw "absolute"))], none, [], none⟩
     isOk (styleAt (1 / 2) (1 / 2) [child, parent, root] "display") (.strs ["inline", "flow"]) = true ∧
     isOk (styleAt (1 / 2) (1 / 2) [plain, parent, root] "display") (.strs ["block", "flow"]) = true := by
+  decide +kernel
+
+/-- `image-orientation` is "Inherited: yes" (css-images-3 §5.2) but is not in `INHERITED`:
+`<div style="image-orientation: 90deg"><img …></div>` leaves the image unrotated (`from-image`),
+where the declaration on the `<img>` itself rotates it. -/
+theorem image_orientation_not_inherited :
+    let parent : Elem := ⟨[("image_orientation", .val (.tup [.num (pyPi / 2), .kw "False"]))], none, [], none⟩
+    let child : Elem := ⟨[("width", .val (.kw "auto"))], none, [], none⟩
+    CssSpec.specInherits "image_orientation" = true ∧ isInherited "image_orientation" = false ∧
+    isOk (styleAt (1 / 2) (1 / 2) [parent] "image_orientation") (.tup [.num 90, .kw "False"]) = true ∧
+    isOk (styleAt (1 / 2) (1 / 2) [child, parent] "image_orientation") (.kw "from-image") = true := by
   decide +kernel
 
 /-- A style whose parent cannot deliver `page` and whose own `page` is a failed `var()`: the first
